@@ -25,6 +25,7 @@ package main
 
 import (
 	"fmt"
+	"go/ast"
 	"go/constant"
 	"go/token"
 	"go/types"
@@ -1208,9 +1209,35 @@ func (e *g9Cases) h5Exec(in ssa.Instruction, fr *g9Frame, depth int) {
 			for i, a := range fr.whole[x.Val] {
 				fr.mem[h5Cell{al, i}] = a
 			}
+			return
+		}
+		if al, ok := x.Addr.(*ssa.Alloc); ok && h5SimpleStruct(al) {
+			// a local struct variable assigned as a whole (a := table entry)
+			fr.h5Forget(al)
+			if a := e.eval(x.Val, fr, depth); a.kind == g9Struct {
+				for i, f := range a.fields {
+					fr.mem[h5Cell{al, int64(i)}] = f
+				}
+			}
 		}
 	case *ssa.UnOp:
 		if x.Op != token.MUL {
+			return
+		}
+		if fa, ok := x.X.(*ssa.FieldAddr); ok {
+			if al, ok := fa.X.(*ssa.Alloc); ok && h5SimpleStruct(al) {
+				fr.val[x] = fr.mem[h5Cell{al, int64(fa.Field)}]
+			}
+			return
+		}
+		if al, ok := x.X.(*ssa.Alloc); ok && h5SimpleStruct(al) {
+			a := g9Abs{kind: g9Struct, fields: map[int]g9Abs{}}
+			for k, f := range fr.mem {
+				if k.arr == ssa.Value(al) {
+					a.fields[int(k.idx)] = f
+				}
+			}
+			fr.val[x] = a
 			return
 		}
 		if ia, ok := x.X.(*ssa.IndexAddr); ok {
@@ -1745,7 +1772,7 @@ func h5CompareConsts(a, b g9Abs, op token.Token) (result, ok bool) {
 // "SPEED: %s\r\n". fa is the format argument of ci, format its folded text.
 func h5FoldVerbArgs(ci ssa.CallInstruction, fa ssa.Value, format string, chain []ssa.CallInstruction) string {
 	n := callName(ci.Common())
-	if n != "fmt.Fprintf" && n != "fmt.Sprintf" {
+	if n != "fmt.Fprintf" && n != "fmt.Sprintf" && n != "fmt.Appendf" {
 		return format
 	}
 	args := ci.Common().Args
@@ -1860,4 +1887,266 @@ func h5DependsDeep(v ssa.Value, pkg string, pred func(ssa.Value) bool, all bool,
 			return false
 		}, all)
 	})
+}
+
+// ---- round 4 -------------------------------------------------------------------------------------------------
+
+// h5CmpOrArgs: v is a call of cmp.Or with its arguments spelled out at the call: Or returns the
+// first argument that is not the zero value (for strings: not ""), else the zero value - which is
+// what the last argument then is.
+func h5CmpOrArgs(v ssa.Value) ([]ssa.Value, bool) {
+	call, ok := v.(*ssa.Call)
+	if !ok || callName(&call.Call) != "cmp.Or" || len(call.Call.Args) != 1 {
+		return nil, false
+	}
+	args, ok := variadicArgs(call.Call.Args[0])
+	return args, ok
+}
+
+// h5ReadOnlyTable: g is an unexported package-level slice/array variable of package pkg whose only
+// assignment is its literal initialiser with constant string elements and which the code of the
+// package only reads: every use is a load whose value goes to len, range, an index read, or the
+// first argument of slices.Contains / slices.Index. Returns the elements.
+func h5ReadOnlyTable(c *Ctx, pkg string, g *ssa.Global) ([]string, bool) {
+	if c == nil || g.Object() == nil || g.Object().Exported() || g.Pkg == nil || relOf(g.Pkg.Pkg.Path()) != pkg {
+		return nil, false
+	}
+	p := c.Pkg(pkg)
+	if p == nil {
+		return nil, false
+	}
+	vs, i := varSpec(p, g.Name())
+	if vs == nil || i >= len(vs.Values) || len(vs.Values) != len(vs.Names) {
+		return nil, false
+	}
+	lit, ok := vs.Values[i].(*ast.CompositeLit)
+	if !ok {
+		return nil, false
+	}
+	var elems []string
+	for _, el := range lit.Elts {
+		if _, keyed := el.(*ast.KeyValueExpr); keyed {
+			return nil, false
+		}
+		v := exprConst(p.TypesInfo, el)
+		if v == nil || v.Kind() != constant.String {
+			return nil, false
+		}
+		elems = append(elems, constant.StringVal(v))
+	}
+	readOnly := true
+	var readOnlyVal func(v ssa.Value, depth int)
+	readOnlyVal = func(v ssa.Value, depth int) {
+		if v.Referrers() == nil || depth > 3 {
+			readOnly = false
+			return
+		}
+		for _, ref := range *v.Referrers() {
+			switch x := ref.(type) {
+			case *ssa.DebugRef, *ssa.Range, *ssa.Index, *ssa.Lookup:
+			case *ssa.IndexAddr:
+				if x.Referrers() == nil {
+					readOnly = false
+					return
+				}
+				for _, r2 := range *x.Referrers() {
+					if ld, ok := r2.(*ssa.UnOp); !ok || ld.Op != token.MUL {
+						if _, isDbg := r2.(*ssa.DebugRef); !isDbg {
+							readOnly = false
+						}
+					}
+				}
+			case *ssa.Call:
+				n := callName(&x.Call)
+				switch {
+				case n == "builtin.len":
+				case (n == "slices.Contains" || n == "slices.Index") && len(x.Call.Args) == 2 && x.Call.Args[0] == v && x.Call.Args[1] != v:
+				default:
+					readOnly = false
+				}
+			default:
+				readOnly = false
+			}
+		}
+	}
+	for _, fn := range c.SrcFuncs(pkg) {
+		eachInstr(fn, func(_ *ssa.BasicBlock, _ int, in ssa.Instruction) {
+			for _, op := range in.Operands(nil) {
+				if *op != ssa.Value(g) {
+					continue
+				}
+				ld, ok := in.(*ssa.UnOp)
+				if !ok || ld.Op != token.MUL {
+					readOnly = false // stored to, address passed on, ...
+					continue
+				}
+				readOnlyVal(ld, 0)
+			}
+		})
+	}
+	return elems, readOnly
+}
+
+// h5SchemeTableTest: call is slices.Contains(T, s) with T loaded from a read-only table of
+// constant strings of the package and s the scheme. Returns the table's elements.
+func h5SchemeTableTest(call *ssa.Call, isScheme g6SchemePred) ([]string, bool) {
+	if callName(&call.Call) != "slices.Contains" || len(call.Call.Args) != 2 || c19Reg0 == nil {
+		return nil, false
+	}
+	ld, ok := call.Call.Args[0].(*ssa.UnOp)
+	if !ok || ld.Op != token.MUL {
+		return nil, false
+	}
+	g, ok := ld.X.(*ssa.Global)
+	if !ok || !isScheme(g6KeySplit(call.Call.Args[1])) {
+		return nil, false
+	}
+	return h5ReadOnlyTable(c19Reg0.c, c19Reg0.pkg, g)
+}
+
+// h5SimpleStruct: al is a local struct variable that is only assigned as a whole, loaded as a whole
+// and read field by field in its own function (no field stores, never passed on by address).
+func h5SimpleStruct(al *ssa.Alloc) bool {
+	pt, ok := al.Type().Underlying().(*types.Pointer)
+	if !ok || al.Referrers() == nil {
+		return false
+	}
+	if _, ok := pt.Elem().Underlying().(*types.Struct); !ok {
+		return false
+	}
+	for _, ref := range *al.Referrers() {
+		switch x := ref.(type) {
+		case *ssa.FieldAddr:
+			if x.Referrers() == nil {
+				return false
+			}
+			for _, r2 := range *x.Referrers() {
+				switch y := r2.(type) {
+				case *ssa.UnOp:
+					if y.Op != token.MUL {
+						return false
+					}
+				case *ssa.DebugRef:
+				default:
+					return false
+				}
+			}
+		case *ssa.Store:
+			if x.Addr != ssa.Value(al) {
+				return false
+			}
+		case *ssa.UnOp:
+			if x.Op != token.MUL {
+				return false
+			}
+		case *ssa.DebugRef:
+		default:
+			return false
+		}
+	}
+	return true
+}
+
+// h5GlobalEntry: addr is a package-level struct variable of the module (or a field of one) that is
+// a read-only table entry: unexported, initialised by a composite literal of constants, never
+// assigned or reached by address in the code of its package. Returns its abstract value.
+func h5GlobalEntry(c *Ctx, addr ssa.Value) (g9Abs, bool) {
+	field := -1
+	if fa, ok := addr.(*ssa.FieldAddr); ok {
+		addr, field = fa.X, fa.Field
+	}
+	g, ok := addr.(*ssa.Global)
+	if !ok || c == nil || g.Pkg == nil || g.Object() == nil || g.Object().Exported() {
+		return g9Abs{}, false
+	}
+	pkg := relOf(g.Pkg.Pkg.Path())
+	p := c.Pkg(pkg)
+	st, isStruct := g.Type().(*types.Pointer).Elem().Underlying().(*types.Struct)
+	if p == nil || !isStruct {
+		return g9Abs{}, false
+	}
+	vs, i := varSpec(p, g.Name())
+	if vs == nil || i >= len(vs.Values) || len(vs.Values) != len(vs.Names) {
+		return g9Abs{}, false
+	}
+	lit, ok := vs.Values[i].(*ast.CompositeLit)
+	if !ok {
+		return g9Abs{}, false
+	}
+	a := g9Abs{kind: g9Struct, fields: map[int]g9Abs{}}
+	for k, el := range lit.Elts {
+		idx, val := k, el
+		if kv, keyed := el.(*ast.KeyValueExpr); keyed {
+			id, ok := kv.Key.(*ast.Ident)
+			if !ok {
+				return g9Abs{}, false
+			}
+			idx = -1
+			for f := 0; f < st.NumFields(); f++ {
+				if st.Field(f).Name() == id.Name {
+					idx = f
+				}
+			}
+			val = kv.Value
+		}
+		if idx < 0 || idx >= st.NumFields() {
+			return g9Abs{}, false
+		}
+		if cv := exprConst(p.TypesInfo, val); cv != nil {
+			if cv.Kind() == constant.Bool {
+				a.fields[idx] = g9Abs{kind: g9Boolean, b: constant.BoolVal(cv)}
+			} else {
+				a.fields[idx] = g9Abs{kind: g9Constant, c: ssa.NewConst(cv, st.Field(idx).Type())}
+			}
+		}
+	}
+	// read-only: every use in the package loads the variable as a whole or loads one of its fields
+	readOnly := true
+	for _, fn := range c.SrcFuncs(pkg) {
+		eachInstr(fn, func(_ *ssa.BasicBlock, _ int, in ssa.Instruction) {
+			for _, op := range in.Operands(nil) {
+				if *op != ssa.Value(g) {
+					continue
+				}
+				switch x := in.(type) {
+				case *ssa.UnOp:
+					if x.Op != token.MUL {
+						readOnly = false
+					}
+				case *ssa.FieldAddr:
+					if x.Referrers() == nil {
+						readOnly = false
+						continue
+					}
+					for _, r2 := range *x.Referrers() {
+						if ld, ok := r2.(*ssa.UnOp); !ok || ld.Op != token.MUL {
+							if _, isDbg := r2.(*ssa.DebugRef); !isDbg {
+								readOnly = false
+							}
+						}
+					}
+				default:
+					readOnly = false
+				}
+			}
+		})
+	}
+	if !readOnly {
+		return g9Abs{}, false
+	}
+	if field >= 0 {
+		f, ok := a.fields[field]
+		return f, ok
+	}
+	return a, true
+}
+
+// h5FormatIndex: the position of the format among the arguments of a formatting call: 0 for
+// Sprintf, 1 for Fprintf (after the writer) and Appendf (after the bytes appended to).
+func h5FormatIndex(ci ssa.CallInstruction) int {
+	switch callName(ci.Common()) {
+	case "fmt.Fprintf", "fmt.Appendf":
+		return 1
+	}
+	return 0
 }
